@@ -22,6 +22,7 @@
 import Cerberus.Proofs.Validate
 import Cerberus.Model.Api
 import Cerberus.Extracted
+import Cerberus.Model.RefTables
 namespace Cerberus
 open V
 
@@ -61,6 +62,18 @@ instance (t : Tables) : Decidable t.Adequate := by unfold Tables.Adequate; exact
 
 /-- **the tables extracted from the live code on this run are adequate** -/
 theorem C01_tables : Extracted.tables.Adequate := by decide
+
+/-- the reference tables used by the C01 port are adequate as well -/
+theorem C01_ref_tables : refTables.Adequate := by decide
+
+/-- the extracted type table is the documented one (on every type name and constructor class) -/
+theorem C01_type_table :
+    ∀ name ∈ ["binary", "boolean", "container", "date", "datetime", "dict", "float", "integer", "list",
+              "number", "set", "string", "nope"],
+      ∀ c ∈ [Val.Ctor.none, .bool, .int, .flt, .str, .list, .tuple, .dict, .fn],
+        (Tables.lookupS Extracted.tables.typeTable name).map (fun r => Tables.lookupC r c) =
+        (Tables.lookupS refTables.typeTable name).map (fun r => Tables.lookupC r c) := by
+  decide
 
 /-- the documented type table, on the constructor classes of the value universe -/
 theorem C01_types :
